@@ -30,16 +30,16 @@ _WITH_RE = re.compile(r"^\s*with\s+([A-Za-z_][A-Za-z_0-9]*)\s*:")
 class Stop:
     """where a controlled thread is waiting: before executing `text`."""
 
-    __slots__ = ("func", "lineno", "text", "frame")
+    __slots__ = ("func", "lineno", "text", "frame", "is_exit")
 
-    def __init__(self, func, lineno, text, frame):
-        self.func, self.lineno, self.text, self.frame = func, lineno, text, frame
+    def __init__(self, func, lineno, text, frame, is_exit=False):
+        self.func, self.lineno, self.text, self.frame, self.is_exit = func, lineno, text, frame, is_exit
 
     def key(self):
         return (self.func, self.text.strip())
 
     def __repr__(self):
-        return f"{self.func}:{self.lineno}:{self.text.strip()}"
+        return f"{self.func}:{self.lineno}:{self.text.strip()}" + (" (exit)" if self.is_exit else "")
 
 
 class _T:
@@ -56,13 +56,15 @@ class _T:
         self.result = None
         self.exc = None
         self.free_run = False                 # scheduler gave up control (cleanup)
+        self.in_with: set = set()             # (id(frame), lineno) of `with` lines entered, not yet left
 
 
 class Scheduler:
-    def __init__(self, files, funcs=None, stop_filter=None, block_timeout=0.4, hard_timeout=20.0):
+    def __init__(self, files, funcs=None, stop_filter=None, block_timeout=10.0, hard_timeout=20.0):
         """files: iterable of source file paths to trace; funcs: optional set of function
-        names (co_name) to trace inside them; stop_filter(func, text) -> bool selects the
-        lines that are stop points (default: every line)."""
+        names (co_name) to trace inside them; stop_filter(func, text, is_exit) -> bool selects
+        the lines that are stop points (default: every line); block_timeout: how long a granted
+        thread may take to reach its next stop point before it is declared blocked."""
         self.files = {os.path.realpath(f) for f in files}
         self.funcs = set(funcs) if funcs else None
         self.stop_filter = stop_filter
@@ -86,8 +88,17 @@ class Scheduler:
             if event == "line" and not t.free_run:
                 code = frame.f_code
                 text = linecache.getline(code.co_filename, frame.f_lineno)
-                if self.stop_filter is None or self.stop_filter(code.co_name, text):
-                    t.stop = Stop(code.co_name, frame.f_lineno, text, frame)
+                is_exit = False
+                if _WITH_RE.match(text):
+                    # a `with` line is reported twice: on entry and again when the block is left
+                    k = (id(frame), frame.f_lineno)
+                    if k in t.in_with:
+                        t.in_with.discard(k)
+                        is_exit = True
+                    else:
+                        t.in_with.add(k)
+                if self.stop_filter is None or self.stop_filter(code.co_name, text, is_exit):
+                    t.stop = Stop(code.co_name, frame.f_lineno, text, frame, is_exit)
                     t.halt.release()
                     t.go.acquire()
                     t.stop = None
@@ -116,8 +127,8 @@ class Scheduler:
     def add(self, name, target):
         self.threads[name] = _T(name, target)
 
-    def _await(self, t: _T) -> str:
-        if t.halt.acquire(timeout=self.block_timeout):
+    def _await(self, t: _T, timeout=None) -> str:
+        if t.halt.acquire(timeout=self.block_timeout if timeout is None else timeout):
             t.limbo = False
             return "done" if t.done else "stopped"
         t.limbo = True
@@ -147,7 +158,7 @@ class Scheduler:
 
     def predicted_blocked(self, name) -> bool:
         st = self.at(name)
-        if st is None:
+        if st is None or st.is_exit:
             return False
         m = _WITH_RE.match(st.text)
         if not m:
@@ -167,7 +178,7 @@ class Scheduler:
             return True
         return not self.predicted_blocked(name)
 
-    def step(self, name) -> str:
+    def step(self, name, timeout=None) -> str:
         """grant one step: the thread executes its current stop line and runs to the next
         stop point.  Returns 'stopped' | 'done' | 'blocked'."""
         t = self.threads[name]
@@ -184,7 +195,7 @@ class Scheduler:
         if st is not None:
             self.trace.append((name, st.func, st.text.strip()))
         t.go.release()
-        r = self._await(t)
+        r = self._await(t, timeout)
         self._poll_limbo()
         return r
 
